@@ -21,7 +21,8 @@ USER_EXC = [("ValueError", "FAILED", "ValueError"), ("UserErr", "FAILED", "UserE
             ("ExecutionError", "FAILED", "ExecutionError"), ("ValidationError", "FAILED", "ValidationError"),
             ("CallbackError", "FAILED", "CallbackError"), ("SerDesError", "FAILED", "SerDesError"),
             ("CallableRuntimeError", "FAILED", "CallableRuntimeError"), ("DurableExecutionsError", "FAILED", "DurableExecutionsError"),
-            ("InvocationError", "raise", "InvocationError"), ("StepInterruptedError", "raise", "StepInterruptedError")]
+            ("InvocationError", "raise", "InvocationError"), ("StepInterruptedError", "raise", "StepInterruptedError"),
+            ("DataErr", "FAILED", "DataErr"), ("JsonDataErr", "FAILED", "JsonDataErr")]
 
 
 def explicit(tier, seed):  # noqa: C901
@@ -96,6 +97,15 @@ def explicit(tier, seed):  # noqa: C901
                     exp = {"kind": "raise", "cls": "CheckpointError", "why": "checkpoint-4xx"} if expected_checkpoint_raise(err) else \
                           {"kind": "FAILED", "etype": "CheckpointError", "why": "checkpoint-%s" % (err.get("status") or err.get("cls"))}
                     yield case("ckpt-%s-%d" % (sname, k), body, exp, faults=[{"match": {"op": "checkpoint", "n": k}, "err": err, "when": when}], **extra)
+    # a page fetch (GetDurableExecutionState) fails: while loading the paginated history, or while following the pages of a checkpoint response
+    for sname, body in shapes.items():
+        for err in (ERRS[0], ERRS[5], ERRS[8]):
+            for nth in (1, 2, 3):
+                exp = {"kind": "raise", "cls": "GetExecutionStateError", "why": "page-fetch-failed"}
+                yield case("getstate-resp-%s" % sname, body, exp, pages={"resp_page": 1},
+                           faults=[{"match": {"op": "get_state", "n_inv": None}, "err": err, "when": "before", "nth": nth}], opts={"hang_s": 3.0})
+        yield case("getstate-initial-%s" % sname, [{"k": "step", "val": 0}, {"k": "wait", "s": 1}] + body, {"kind": "raise", "cls": "GetExecutionStateError", "why": "initial-page-fetch-failed"},
+                   pages={"first_page": 1, "page_size": 1}, faults=[{"match": {"op": "get_state", "inv_ge": 2}, "err": ERRS[0], "when": "before"}], opts={"hang_s": 3.0})
     # BaseException raised by user code inside a branch
     for cls in ("SystemExit", "KeyboardInterrupt"):
         yield case("base-exc-branch", [{"k": "par", "branches": [{"body": [{"k": "raise", "cls": cls, "msg": "bye"}]}, {"body": [{"k": "step", "val": 1}]}]}],
